@@ -339,4 +339,52 @@ PROPS["C12"] = dict(
     design_ref="6 C12",
 )
 
+WR_TB = ["std::io::BufWriter is modelled from its documented / observed rule (flush-before-overflow, bypass for writes >= capacity, unwritten bytes stay buffered after a failed flush); validated by syscall-trace equality on every run",
+         "the LD_PRELOAD shim (shim/crashshim.c) interposes write / fsync / fdatasync / ftruncate on *.jnl files of the child process",
+         "device behaviour below fsync, metadata durability and lsm-tree's table files are outside the model"]
+PROPS["C09"] = dict(
+    title="persist(SyncData|SyncAll) makes all earlier writes power-loss durable",
+    modules=["FjallModel.Props.C09"],
+    theorems=["Fjall.Journal.c09_sync_durable", "Fjall.Journal.c09_manual_buffer", "Fjall.Journal.c09_inv_after_write", "Fjall.Journal.c09_inv_after_persist"],
+    statements={
+        "c09_sync_durable": "under every fault plan: persist(SyncData|SyncAll) = Ok implies the user-space buffer is empty and synced = file length",
+        "c09_manual_buffer": "persist(Buffer) = Ok implies the user-space buffer is empty (manual journal persist)",
+        "c09_inv_*": "the writer never holds buffered bytes while is_buffer_dirty is false, after every append and persist",
+    },
+    engines=[dict(bin="fault", args=["--mode", "c09"], cases_quick=64, cases_thorough=2000, profiles=["release"], shards=8, timeout_quick=900)],
+    rule="case = journal workload (insert, remove, clear, batches with every durability incl. none, persist with every mode; values 0 B .. 9000 B so that the 8 KiB "
+         "BufWriter overflows and is bypassed; manual persist on/off; lz4/none) run in a child process under the shim: (1) the syscall trace (write sizes, fsync / "
+         "fdatasync) must equal the Lean writer model's trace and the file bytes the model's bytes; (2) power-loss images: the child is killed before syscall n "
+         "(sampled; all n in thorough), the journal is cut to the length covered by the last successful sync (from the shim log) and zero-padded, reopened: the "
+         "content must be the state of a prefix of the operations containing everything acknowledged before the last acknowledged sync. non-trivial = a sync "
+         "persist occurs strictly inside the workload",
+    trusted_base=WR_TB + JOURNAL_TB,
+    assumptions=["fsync/fdatasync make all previously written bytes of the file durable"],
+    level_text="Lean 4 theorems about the BufWriter + writer state machine under arbitrary fault plans; tied to the real process by syscall-trace equality and byte equality, "
+               "plus power-loss images reopened with the real crate",
+    level_note="partial: the device and file-system layers below the syscalls are assumed, rotation / drop are covered by the same persist theorem",
+    technique="Lean 4 proof (state-machine invariants, induction over flush loops) + syscall-trace correspondence + power-loss images",
+    design_ref="6 C09",
+)
+PROPS["C13"] = dict(
+    title="Fail-stop after a journal I/O failure",
+    modules=["FjallModel.Props.C13"],
+    theorems=["Fjall.Journal.c13_fail_stop", "Fjall.Journal.c13_error_poisons", "Fjall.Journal.c13_poisoned_is_inert"],
+    statements={
+        "c13_fail_stop": "for every workload and fault plan: if operation i reported an error then every later insert / remove / clear / non-empty batch / commit / persist returns Poisoned",
+        "c13_error_poisons": "every write path sets the poison flag on any journal I/O error (incl. the append of a batch / clear marker, finding F8 fixed)",
+    },
+    engines=[dict(bin="fault", args=["--mode", "c13"], cases_quick=64, cases_thorough=2000, profiles=["release"], shards=8, timeout_quick=900)],
+    rule="case = journal workload as for C09; for n in a sample of the journal syscalls (all n in thorough): the n-th and every later syscall fails with EIO / ENOSPC / "
+         "after a short write; per-operation results must equal the model's; oracle: no acknowledgement after the first error; reopening without faults yields a "
+         "prefix of the acknowledged operations containing everything acknowledged up to the last acknowledged buffer flush, optionally followed by whole failed "
+         "operations. non-trivial = the first failing operation is neither the first nor the last",
+    trusted_base=WR_TB + JOURNAL_TB,
+    assumptions=["one writer thread (the poison flag is read under the journal lock; multi-thread clause is the Conc stage)"],
+    level_text="Lean 4 theorem: fail-stop for all workloads and fault plans on the modelled write paths; tied to the code by injecting the same faults into a real process",
+    level_note="partial: multi-threaded writers and worker-thread poisoning are not in the model",
+    technique="Lean 4 proof (case analysis of every write path, induction over the workload) + fault-injection correspondence",
+    design_ref="6 C13",
+)
+
 ALL_IDS = [f"C{i:02d}" for i in range(1, 19)]
